@@ -8,7 +8,22 @@ import (
 var semverShape = regexp.MustCompile(`^[v=]{0,2}([0-9]+(?:\.[0-9]+){0,3})(?:-([0-9A-Za-z-]+(?:\.[0-9A-Za-z-]+)*))?(?:\+([0-9A-Za-z-]+(?:\.[0-9A-Za-z-]+)*))?$`)
 
 // SemverParts splits a SemVer-shaped string (optional v/= prefix, 1-4 numeric components).
+type semverParsed struct {
+	core, pre []string
+	ok        bool
+}
+
+var semverMemo = map[string]semverParsed{}
+
 func SemverParts(s string) (core []string, pre []string, ok bool) {
+	if p, hit := semverMemo[s]; hit {
+		return p.core, p.pre, p.ok
+	}
+	defer func() {
+		if len(semverMemo) < 1<<20 {
+			semverMemo[s] = semverParsed{core, pre, ok}
+		}
+	}()
 	m := semverShape.FindStringSubmatch(strings.TrimSpace(s))
 	if m == nil {
 		return nil, nil, false
